@@ -54,7 +54,12 @@ def match_known(prop, viol, rec, known):
     for k in known:
         if k.get("status") != "open" or k.get("property") != prop:
             continue
-        if k.get("key") != viol["key"]:
+        if "key_prefix" in k:
+            # (matching by exception type + triggering input, not by the innermost function name, so that a
+            # harmless refactoring of the crashing code does not turn a listed finding into a new alarm)
+            if not viol["key"].startswith(k["key_prefix"]):
+                continue
+        elif k.get("key") != viol["key"]:
             continue
         ok = True
         for path, want in (k.get("when") or {}).items():
